@@ -68,7 +68,7 @@ def check_views(s, rec, where):
     evol = np.zeros_like(mol)
     for k, (p, r) in enumerate(rows):
         for j, c in enumerate(chems):
-            if r[j]: evol[k, j] = r[j] * 1000. * c.V(p, T, P)
+            if r[j]: evol[k, j] = r[j] * 1000. * (c.V(p, T, P) if hasattr(c.V, 'l') else c.V(T, P))     # phase-locked chemicals carry a single-phase model
     ok &= rec.check(np.allclose(vol, evol, rtol=1e-11, atol=0), 'vol-view', f'after-{where}', f'after {where}: ivol {vol.tolist()} != mol*V_i(phase={"/".join(p for p, _ in rows)},T={T},P={P}) {evol.tolist()}')
     ok &= rec.check(abs(Fmol - mol.sum()) <= 1e-12 * mol.sum() and abs(Fmass - emass.sum()) <= 1e-12 * emass.sum() and abs(Fvol - evol.sum()) <= 1e-10 * evol.sum(), 'totals',
                     f'after-{where}', f'after {where}: F_mol,F_mass,F_vol = {Fmol},{Fmass},{Fvol} but sums of the views are {mol.sum()},{emass.sum()},{evol.sum()}')
